@@ -278,10 +278,11 @@ CHECKS["C05"] = {
              "0-8 writes per direction of 1..65535 bytes (boundaries 32767/32768/32769/65535) with concurrent readers, relay latency 0..200ms, and a finite per-message drop/delay script on each relay stream armed after the GBN handshake (1/4) or after the Noise handshake (3/4). "
              "Oracles: bytes read on each side are a prefix of the bytes written on the other; 300 virtual seconds after the scripts are exhausted either both streams are complete or both sides have observed a Read/Write error; "
              "no CipherBox payload the relay ever saw contains the first or a middle 16-byte window of any written plaintext >= 16 bytes or of the auth payload; the client's AuthData equals the server's. "
-             "Non-trivial: a relay fault was applied and a write >= 16 bytes was transferred; distinct by case."),
+             "A second, real-time family (TestC05RealTime, 32 conversations concurrently per batch) injects stream errors (the next 1-2 Send or Recv calls on a relay stream fail) and relay outages (down/up) at drawn moments during a paced transfer; same safety and confidentiality oracles, progress bound 90 real seconds after the relay is healthy again. Non-trivial: a relay fault was applied and a write >= 16 bytes was transferred; distinct by case."),
     "assumptions": ["relative to the in-memory model of the hashmail relay (harness/relay)", "stream errors (relay restarts) are exercised in real time by TestC05RealTime only"],
     "units": [
         {"pkg": "mboxprop", "run": "TestC05EndToEnd", "checks": (1200, 15000), "shards": (1, 16), "timeout": (900, 5400), "gomaxprocs": [16, 4, 2, 8]},
+        {"pkg": "mboxprop", "run": "TestC05RealTime", "checks": (2, 10), "shards": (1, 4), "timeout": (1500, 7200), "shrink": (1, 1)},
     ],
 }
 
